@@ -16,7 +16,7 @@ cands = [patch, "/verif/mutants/%s.diff" % patch, "/verif/mutants/%s" % patch,
 patch = next(p for p in cands if os.path.isfile(p))
 tier = os.environ.get("VERIF_TIER", "quick")
 def sh(*a, **k):
-    return subprocess.run(a, capture_output=True, text=True, **k)
+    return subprocess.run(a, capture_output=True, text=True, stdin=subprocess.DEVNULL, **k)
 assert sh("git", "-C", "/repo", "status", "--porcelain", "--untracked-files=no").stdout.strip() == "", "repo dirty"
 if suite:
     wt = "/dev/shm/mutwt-%d" % os.getpid()
@@ -25,9 +25,12 @@ if suite:
         r = sh("git", "-C", wt, "apply", patch)
         assert r.returncode == 0, r.stderr
         env = dict(os.environ, PYTHONPATH=wt + "/src")
-        r = sh("/venv/bin/python", "-m", "pytest", "-q", "-p", "no:cacheprovider", "-x", "--timeout=900",
+        r = sh("/venv/bin/python", "-m", "pytest", "-q", "-p", "no:cacheprovider", "--timeout=900",
                cwd=wt, env=env)
         tail = r.stdout.strip().splitlines()[-1] if r.stdout.strip() else r.stderr[-200:]
+        failed = [l.split()[1] for l in r.stdout.splitlines() if l.startswith(("FAILED", "ERROR"))]
+        failed = [f for f in failed if not f.endswith("test_validator.py::TestValidator::test_schema_only")]
+        tail = ("SUITE-PASSES (only the baseline always-fail test fails) " if not failed else "SUITE-FAILS %s " % failed[:4]) + tail
         print("SUITE[%s]: rc=%d %s" % (os.path.basename(os.path.dirname(patch)) if patch.endswith('patch.diff') else os.path.basename(patch), r.returncode, tail))
     finally:
         sh("git", "-C", "/repo", "worktree", "remove", "--force", wt)
